@@ -173,6 +173,19 @@ _p('C12', 'model_checking', 'DESIGN.md 5/C12',
     "bounded: lists of every length 0..5; every position for insert/erase; concat/swap over all length pairs (0..5 x 0..3); foreach in both directions with every stop position with and without removal of the visited element; sort/find for every key assignment over {0,1,2} to lists of length <= 3 (thorough <= 4)"],
    [NORM])
 
+_p('C07', 'model_checking', 'DESIGN.md 5/C07',
+   [BOUNDED_ASSUME, STEP_ASSUME, CALLBACK_ASSUME, HIST_ASSUME,
+    "proved: cstl_fls for all 2^64 inputs; the index arithmetic of cstl_heap_find for every id < 2^32-1 (no undefined shift, mask = highest bit below the leading one)",
+    "step: cstl_heap_promote_child on explicit distinct node objects, 48 neighbour combinations",
+    "bounded: every key sequence of length <= 4 (thorough: 5) over {0,1,2} pushed then popped; mixed push/pop with pops at every size 1..8; clear on sizes 0..7 with poisoning and freeing callbacks; after every operation: completeness (level-order numbers exactly 0..size-1), parent links, heap order, membership, size, get == a maximal element"],
+   [NORM])
+_p('C13', 'model_checking', 'DESIGN.md 5/C13',
+   [BOUNDED_ASSUME, STEP_ASSUME, CALLBACK_ASSUME, HIST_ASSUME,
+    "step contracts: __cstl_slist_insert_after (middle / after the tail / into the empty list / after the head sentinel), __cstl_slist_erase_after (middle / the tail node / first of several / the only node)",
+    "bounded: lists of length 0..5; after EVERY operation the full tail invariant is checked and a push_back of a spare element must become the last node; insert/erase at every position, reverse, concat/swap over 0..5 x 0..3, clear, foreach with every stop position, sort for all key assignments over {0,1,2} up to length 3 (thorough 4); pop_front on empty lists",
+    "cstl_slist_concat(l, l) is outside the domain (precondition)"],
+   [NORM])
+
 NOT_APPLICABLE = {
     'C06': "every-thread-interleaving refcounting: CBMC's contract instrumentation (DFCC) is sequential; a function contract relates one call's pre- and post-state and cannot quantify over schedules. The sequential bookkeeping is covered by C05.",
     'C18': "header/link usability is a property of preprocessor and linker configurations (symbol multiplicity across translation units); no function contract expresses it and goto-cc is not the project's linker.",
@@ -180,6 +193,8 @@ NOT_APPLICABLE = {
 
 BTECH = "contract-based verification with CBMC 6.11: the representation invariant and abstract view asserted around the real operations on concretely enumerated small structures (bounded, --unwinding-assertions), DFCC step contracts where built"
 TEXT = {
+    'C07': ("cstl_fls and the heap's index arithmetic are proved for all inputs; the exchange step promote_child is proved on every neighbourhood; push/pop/get/clear are checked against a multiset model with completeness, heap order and back-links re-established by an independent walker after every operation on all heaps in the stated scope.", BTECH),
+    'C13': ("Step contracts prove that insert_after/erase_after relink exactly the named nodes and move the tail pointer exactly when the last node is touched; bounded checks compare every list of length 0..5 with a reference sequence after every public operation and verify each time that push_back appends after the true last element.", BTECH),
     'C01': ("Bounded whole-operation contract checks: CBMC executes the real insert/find/erase/foreach/clear of bintree.c and rbtree.c on every tree in the stated scope and an independent walker re-establishes 'exactly the inserted-minus-erased elements, in order, each linked once, parent links consistent, size equal' after every operation; find/erase results are checked against the membership view; traversal bracket structure, order and early stop are checked at every visit index. Nothing is proved beyond the scope.", BTECH),
     'C02': ("Bounded: after every insert and erase on every red-black tree in scope the walker checks root black, no red-red, equal black height on all paths, back-links, and the 2*log2(n+1) height bound through the real cstl_rbtree_height. Nothing is proved beyond the scope.", BTECH),
     'C11': ("Unbounded proofs for linear find, reverse and the index arithmetic of binary search (loop contracts, ghost index instead of quantifiers); bounded checks for the five sort selectors, binary search results and the vector wrappers on every small array over a 3-letter alphabet with byte-identity tags and canaries.", "contract-based verification with CBMC 6.11: DFCC function + loop contracts (find, reverse, search arithmetic); bounded contract checks for the sorts"),
